@@ -804,8 +804,11 @@ def gen_mnet_case(r, maxn, exact):
             toks, info = ["gauss", "1:-1"], dict(kinds={"gauss"}, ps=["gamma"])
         kinds = set(info["kinds"]); kslots = info["ps"]
         pts = gen_points(r, n, dim, False)
-    ops = ["kern " + " ".join(toks), f"pts {n} {dim} " + " ".join(str(v) for p in pts for v in p),
-           f"mnet {nl} " + " ".join(specs) + " " + " ".join(dy(v) for v in params), "mn flags"]
+    ops = ["kern " + " ".join(toks), f"pts {n} {dim} " + " ".join(str(v) for p in pts for v in p)]
+    # adaptive sub-kernels of a weighted sum below the ModelKernel: their parameters are part of kernelGrad | modelGrad
+    adaptive = exact and ("wsum" in toks or "subk" in toks) and r.chance(1, 2)
+    if adaptive: ops.append("adaptall"); kslots = psa
+    ops += [f"mnet {nl} " + " ".join(specs) + " " + " ".join(dy(v) for v in params), "mn flags"]
 
     def two_blocks(maxlen):
         while True:
@@ -846,7 +849,7 @@ def gen_mnet_case(r, maxn, exact):
         if nsum_ok:
             ops.append(("mn setparams " + " ".join(dy(v) for v in vals)).strip()); ops.append("mn flags"); observe(); derivs()
     if r.chance(1, 2): ops.append(f"mn gramt {r.choice([24, 40])} {r.choice([2, 3, 5])}")
-    kinds |= {"mnet"} | ({"mnet-exact"} if exact else {"mnet-smooth"})
+    kinds |= {"mnet"} | ({"mnet-exact"} if exact else {"mnet-smooth"}) | ({"adaptive"} if adaptive else set())
     return ops, dict(exact=exact, exact_case=exact, kinds=kinds, depth=2, n=n, dim=dim, parts=0, M=Fraction(1), f=0, oracle_only=not exact)
 
 
